@@ -75,7 +75,7 @@ def model_line(op: dict):
         return "list"
     if o == "damage":
         k = op["kind"]
-        if k == "set":
+        if k in ("set", "rot"):
             return f"dset {op['loc']} x{op['data']}"
         if k == "del":
             return f"ddel {op['loc']}"
@@ -232,6 +232,16 @@ def apply_damage(op: dict, cache: str, ext: str):
         with open(tmp, "wb") as f:
             f.write(bytes.fromhex(op["data"]))
         os.replace(tmp, p)
+    elif k == "rot":
+        # bit rot: the same inode, the same length, the same timestamps — only the bytes change
+        st = os.stat(p)
+        data = bytes.fromhex(op["data"])
+        assert len(data) == st.st_size, "rot keeps the length"
+        os.chmod(p, st.st_mode | 0o200)
+        with open(p, "r+b") as f:
+            f.write(data)
+        os.chmod(p, st.st_mode)
+        os.utime(p, ns=(st.st_atime_ns, st.st_mtime_ns))
     elif k == "del":
         _rm_any(p)
     elif k == "mkdir":
